@@ -35,11 +35,41 @@ def digest(a):
     return hashlib.sha256(a.tobytes()).hexdigest()[:24]
 
 
+# physical callables (functions of the physical coordinates)
 FIELDS = {
     'f0': lambda *X: 1.0 + 0.5 * X[0],
     'f1': lambda *X: 2.0 - 0.75 * X[0] * X[0],
     'f2': lambda *X: 0.25 + X[0],
 }
+# spline fields in the parameter domain (have grid_eval, grid_jacobian, grid_hessian): scalar s*, vector g*
+SPLINE_SCALAR = {
+    's0': lambda *X: 1.0 + X[0] + 2.0 * X[-1] * X[-1],
+    's1': lambda *X: 2.0 - X[0] * X[-1] + X[0] ** 3,
+    's2': lambda *X: 0.5 + 1.5 * X[0] * X[0] - X[-1],
+}
+SPLINE_VECTOR = {
+    'g0': lambda *X: tuple(1.0 + (d + 1) * X[d] for d in range(len(X))),
+    'g1': lambda *X: tuple(2.0 - X[d] * X[-1 - d] for d in range(len(X))),
+    'g2': lambda *X: tuple(0.25 + X[d] ** 3 for d in range(len(X))),
+}
+_field_cache = {}
+
+
+def resolve(v, dim):
+    """argument value named in a case -> the object handed to pyiga"""
+    if isinstance(v, list):
+        return tuple(v)
+    if not isinstance(v, str):
+        return v
+    if v in FIELDS:
+        return FIELDS[v]
+    key = (v, dim)
+    if key not in _field_cache:
+        from pyiga import bspline, approx
+        fkvs = tuple(bspline.make_knots(3, 0.0, 1.0, 2) for _ in range(dim))
+        fun = SPLINE_SCALAR[v] if v in SPLINE_SCALAR else SPLINE_VECTOR[v]
+        _field_cache[key] = bspline.BSplineFunc(fkvs, approx.interpolate(fkvs, fun))
+    return _field_cache[key]
 
 
 def main():
@@ -87,10 +117,10 @@ def main():
         if form == 'custom':
             args = {'geo': geo}
             for k, v in (case.get('args') or {}).items():
-                args[k] = FIELDS[v] if isinstance(v, str) else (tuple(v) if isinstance(v, list) else v)
+                args[k] = resolve(v, dim)
             if override:
                 for k, v in override.items():
-                    args[k] = FIELDS[v] if isinstance(v, str) else v
+                    args[k] = resolve(v, dim)
             bf = [tuple(b) for b in case['bfuns']] if case.get('bfuns') else None
             return assemble.instantiate_assembler(case['expr'], kvs, args, bf, None, list(case.get('updatable') or []))
         raise ValueError(form)
@@ -202,7 +232,7 @@ def main():
                     args0 = {'geo': geo}
                     cur = dict(case.get('args') or {})
                     for k, v in cur.items():
-                        args0[k] = FIELDS[v] if isinstance(v, str) else v
+                        args0[k] = resolve(v, dim)
                     bf = [tuple(b) for b in case['bfuns']] if case.get('bfuns') else None
                     W = assemble.Assembler(case['expr'], kvs, args=dict(args0), bfuns=bf,
                                            symmetric=bool(case.get('upd_symmetric', False)),
@@ -211,12 +241,12 @@ def main():
                         kind, name, val = step
                         if kind == 'field':
                             if k % 2 == 0:
-                                W.update(**{name: FIELDS[val]})
+                                W.update(**{name: resolve(val, dim)})
                                 A = W.assemble()
                             else:
-                                A = W.assemble(**{name: FIELDS[val]})
+                                A = W.assemble(**{name: resolve(val, dim)})
                         else:
-                            W.asm.update_params(**{name: val})
+                            W.asm.update_params(**{name: resolve(val, dim)})
                             A = W.assemble()
                         cur[name] = val
                         out_arr(res, 'upd%d' % k, dense(A))
